@@ -6,8 +6,8 @@
     TraceCallHandler), concurrency.py (TaskAndThreadKeeper.filtered/_on_start/_on_end,
     TaskOrThreadToTraceMapper), pdb_/factory.py (CmdloopHook, PromptFunc), pdb_/custom.py
     (CustomizedPdb.cmdloop), nextline/count.py, plugins/__init__.py (registration order).
-    Statements the stream does not depend on (logging, typing, docstrings, timestamps, asserts
-    without a binding) have no constructor: the translator drops them. *)
+    Statements the stream does not depend on (logging whose arguments call nothing, typing, docstrings,
+    timestamps) have no constructor: the translator drops them. *)
 From Coq Require Import List String ZArith Bool.
 Import ListNotations.
 
@@ -34,6 +34,7 @@ Inductive expr :=
 | EMapIdx (m : string) (k : expr)       (* self.<m>[<k>] *)
 | EIn (k : expr) (m : string)           (* <k> in self.<m> *)
 | ENot (e : expr)                       (* not <e> *)
+| EIsNone (e : expr)                    (* <e> is None *)
 | ELet (x : string) (e1 e2 : expr)      (* x = e1; ... return e2   (body of a first-result hook) *)
 | EIfNone (x : string) (e1 e2 : expr).  (* if (x := e1) is None: return None; return e2 *)
 
@@ -61,7 +62,11 @@ Inductive stmt :=
 | SMapDel (m : string) (k : expr)       (* del self.<m>[k] *)
 | SSetAdd (m : string) (k : expr)       (* self.<m>.add(k) *)
 | SSetRemove (m : string) (k : expr)    (* self.<m>.remove(k) *)
-| SSetAttr (a : string) (e : expr).     (* self.<a> = e *)
+| SSetAttr (a : string) (e : expr)      (* self.<a> = e *)
+| SAssertEq (a b : expr)                (* assert a == b      (raises AssertionError otherwise) *)
+| SAssertTrue (e : expr)                (* assert e *)
+| SExt (tag : string).                  (* a call into machinery that is not translated (named by the translator:
+                                           the done-callback registration of C18, the thread/task numbering of C06) *)
 
 (** a translated function: its parameters (without self) and its body *)
 Record func := mkF { f_params : list string; f_body : stmt }.
